@@ -135,3 +135,25 @@ Definition start_scope (i : N) (p : path) : bool :=
   | Some (_, _, true) => (length (p_hops p) <=? p_ch p + 1)%nat
   | _ => true
   end.
+
+(** ** Which segment lookups a path between two ASes can need (SCION path-combination rules):
+    a path is one to three segment uses -- [Up] (a non-core segment climbed from the source),
+    [CoreS], [Down] (a non-core segment descended to the destination) -- in that order.  A
+    core source needs no [Up], a core destination no [Down]; a destination "any core of the
+    ISD" in the source's ISD is reached by [Up] alone (or is the core source's own kind); and
+    when the source's ISD has a single core AS, a path inside that ISD cannot use a core
+    segment (a core segment joins two different core ASes).
+    Context: 0 same ISD / single core, 1 same ISD / several cores, 2 different ISDs;
+    source kind 0 core 1 non-core; destination kind 0 core 1 non-core 2 any core. *)
+Inductive seg_class := Up | CoreS | Down.
+Definition needed_lookups (ctx srck dstk : N) : list (list seg_class) :=
+  let all :=
+    match srck, dstk with
+    | 0, 1 => [[Down]; [CoreS; Down]]
+    | 0, _ => [[CoreS]]
+    | _, 1 => [[Up]; [Down]; [Up; Down]; [Up; CoreS; Down]]
+    | _, 2 => if ctx =? 2 then [[Up; CoreS]] else [[Up]]
+    | _, _ => [[Up]; [Up; CoreS]]
+    end in
+  if ctx =? 0 then filter (fun p => negb (existsb (fun c => match c with CoreS => true | _ => false end) p)) all
+  else all.
